@@ -6,6 +6,7 @@
 package c16
 
 import (
+	"sort"
 	"bytes"
 	"fmt"
 	"strings"
@@ -74,6 +75,8 @@ func Run(r *ev.Run, tier string) (evals, nontrivial int64) {
 			srcCh = backCh
 		case "other":
 			denom = "uosmo"
+		case "multihop":
+			denom = "transfer/channel-9/uatom" // arrives as ibc/hash(transfer/channel-0/transfer/channel-9/uatom), never the registered direct voucher
 		}
 		data := transfertypes.FungibleTokenPacketData{Denom: denom, Amount: pc.Amount, Sender: "cosmos1sender", Receiver: recv}
 		dstCh := channel
@@ -129,7 +132,7 @@ func Run(r *ev.Run, tier string) (evals, nontrivial int64) {
 		})},
 	}
 	var packets []packetCase
-	for _, d := range []string{"uatom", "other", "native"} {
+	for _, d := range []string{"uatom", "other", "native", "multihop"} {
 		for _, a := range []string{"1", "3", "0", "abc", big256, "-1", ""} {
 			for _, rc := range []string{"valid", "malformed", "blocked", "zero"} {
 				packets = append(packets, packetCase{d, a, rc})
@@ -166,9 +169,11 @@ func Run(r *ev.Run, tier string) (evals, nontrivial int64) {
 				who = sdk.AccAddress(make([]byte, 20))
 			}
 			beforeM := observeFor(ctxM, who)
+			balM0, balI0 := c.App.BankKeeper.GetAllBalances(ctxM, who), c.App.BankKeeper.GetAllBalances(ctxI, who)
 			ackM := mw.OnRecvPacket(ctxM, pkt, c.Accounts["rel"].Acc)
 			ackI := inner.OnRecvPacket(ctxI, pkt, c.Accounts["rel"].Acc)
 			afterM := observeFor(ctxM, who)
+			balM1, balI1 := c.App.BankKeeper.GetAllBalances(ctxM, who), c.App.BankKeeper.GetAllBalances(ctxI, who)
 			evals++
 			desc := map[string]interface{}{"registry": stName, "packets": fmt.Sprint(seq), "index": i}
 			if evals%29 == 1 {
@@ -184,6 +189,17 @@ func Run(r *ev.Run, tier string) (evals, nontrivial int64) {
 				r.Violation("C16:middleware-changes-the-acknowledgement", fmt.Sprintf("state %q, packet %s: transfer app %s, middleware %s", stName, pc, ackI.Acknowledgement(), ackM.Acknowledgement()), map[string]interface{}{"engine": "c16", "case": desc})
 			default:
 				r.Outcome(fmt.Sprintf("acknowledgement preserved (success=%v)", ackI.Success()))
+			}
+			// (3) a packet that does not carry the registered voucher: the receiver's coins and tokens change exactly as under the transfer application alone
+			if pc.Denom != "uatom" {
+				dM, dI := fmt.Sprint(coinDelta(balM0, balM1)), fmt.Sprint(coinDelta(balI0, balI1))
+				dE := diffInt(beforeM["erc20/u1"], afterM["erc20/u1"])
+				dEsc := diffInt(beforeM["module/"+voucher], afterM["module/"+voucher])
+				if dM != dI || !dE.IsZero() || !dEsc.IsZero() {
+					r.Violation("C16:converted-coins-the-packet-did-not-carry", fmt.Sprintf("state %q, packet %s: receiver coins changed by %s (transfer application alone: %s), receiver tokens %s, escrowed vouchers %s", stName, pc, dM, dI, dE, dEsc), map[string]interface{}{"engine": "c16", "case": desc})
+				} else {
+					r.Outcome("packet of another denomination: same effect as the transfer application alone")
+				}
 			}
 			// (2) atomic conversion of the received voucher
 			if pc.Denom == "uatom" && ackI.Success() {
@@ -215,7 +231,7 @@ func Run(r *ev.Run, tier string) (evals, nontrivial int64) {
 			one(st.name, base, []packetCase{p})
 		}
 		// two packets in sequence (all pairs of a reduced set)
-		second := []packetCase{{"uatom", "1", "valid"}, {"uatom", "3", "valid"}, {"other", "1", "valid"}, {"native", "1", "valid"}, {"uatom", "abc", "valid"}, {"uatom", "2", "zero"}}
+		second := []packetCase{{"uatom", "1", "valid"}, {"uatom", "3", "valid"}, {"other", "1", "valid"}, {"native", "1", "valid"}, {"uatom", "abc", "valid"}, {"uatom", "2", "zero"}, {"multihop", "2", "valid"}}
 		first := second
 		if tier == "thorough" {
 			first = packets
@@ -227,6 +243,26 @@ func Run(r *ev.Run, tier string) (evals, nontrivial int64) {
 		}
 	}
 	return
+}
+
+// coinDelta lists after-before per denomination (sorted by denomination).
+func coinDelta(before, after sdk.Coins) []string {
+	seen := map[string]bool{}
+	var ds []string
+	for _, c := range append(append(sdk.Coins{}, before...), after...) {
+		if !seen[c.Denom] {
+			seen[c.Denom] = true
+			ds = append(ds, c.Denom)
+		}
+	}
+	sort.Strings(ds)
+	var out []string
+	for _, d := range ds {
+		if x := after.AmountOf(d).Sub(before.AmountOf(d)); !x.IsZero() {
+			out = append(out, x.String()+d)
+		}
+	}
+	return out
 }
 
 func diffInt(a, b string) sdk.Int {
